@@ -1,6 +1,7 @@
 package main
 
 import (
+	"math/big"
 	"fmt"
 	"os"
 	"path/filepath"
@@ -126,6 +127,7 @@ type PkgContracts struct {
 	ExternAttr   map[string][]string      // "pkgpath.Type.Method" or callee string -> ufun name per result: the result is a fixed function of receiver and arguments (assumed)
 	ExternFuncs  map[string]*FuncContract // callee string -> assumed contract of a function outside the module
 	ExternNonNil map[string]bool
+	LogFields   map[string]string // "Type.Field" -> ghost log that records calls through the field
 	PkgPath      string
 }
 
@@ -437,11 +439,11 @@ func (p *parser) primary() Expr {
 		return &EIdent{t.v}
 	case "int":
 		s := strings.ReplaceAll(t.v, "_", "")
-		n, err := strconv.ParseUint(s, 0, 64)
-		if err != nil {
+		n, ok := new(big.Int).SetString(s, 0)
+		if !ok {
 			panic(fmt.Errorf("bad integer %q", t.v))
 		}
-		return &EInt{strconv.FormatUint(n, 10)}
+		return &EInt{n.String()}
 	case "real":
 		return &EReal{t.v}
 	case "str":
@@ -463,7 +465,7 @@ func (p *parser) primary() Expr {
 
 var blockRe = regexp.MustCompile(`(?s)/\*@(.*?)@\*/`)
 var clauseKw = map[string]bool{"requires": true, "ensures": true, "modifies": true, "loop": true, "panics": true,
-	"assume": true, "exit": true, "func": true, "pred": true, "spec": true, "inline": true, "noinline": true, "pure": true, "ghost": true, "rec": true, "bits": true, "unfold": true, "logs": true, "overflow": true, "freshresult": true, "lemma": true, "bitwidth": true, "ufun": true, "purefield": true, "tokens": true, "bvtype": true, "vocab": true, "extern": true, "sets": true}
+	"assume": true, "exit": true, "func": true, "pred": true, "spec": true, "inline": true, "noinline": true, "pure": true, "ghost": true, "rec": true, "bits": true, "unfold": true, "logs": true, "overflow": true, "freshresult": true, "lemma": true, "bitwidth": true, "ufun": true, "purefield": true, "tokens": true, "bvtype": true, "vocab": true, "extern": true, "sets": true, "logfield": true}
 
 // ReadContracts parses every contracts_verif*.go file of a package directory.
 func ReadContracts(dir string) (*PkgContracts, error) {
@@ -672,6 +674,19 @@ func (pc *PkgContracts) parseBlock(body, file string, line0 int) error {
 			}
 			pc.PureFields[strings.TrimSpace(it.text)] = true
 			pc.Assumes = append(pc.Assumes, "purefield "+strings.TrimSpace(it.text)+": calls through this function-typed field have no effect on modelled state")
+		case "logfield":
+			// logfield Type.Field logname : calls through this function-typed field append their first argument to the
+			// ghost log and have no other effect on modelled state (assumed)
+			cur = nil
+			f := strings.Fields(it.text)
+			if len(f) != 2 {
+				return errf("logfield Type.Field logname")
+			}
+			if pc.LogFields == nil {
+				pc.LogFields = map[string]string{}
+			}
+			pc.LogFields[f[0]] = f[1]
+			pc.Assumes = append(pc.Assumes, "logfield "+f[0]+": calls through this function-typed field have no effect on modelled state (they are recorded in ghost log "+f[1]+")")
 		case "freshresult":
 			cur = nil
 			pc.FreshResult = append(pc.FreshResult, strings.TrimSpace(it.text))
